@@ -37,7 +37,7 @@ DIRS = ['', '', 'sub', 'sub/deep', 'other', '.dotdir', 'sub/..weird',
         # nested directories with longish names: no component is long, the relative path as a whole is (> 255, > 1024 characters)
         '/'.join(['nested-directory-%d-' % i + 'n' * 48 for i in range(4)]), '/'.join(['deep%02d-' % i + 'd' * 90 for i in range(11)])]
 MAX_CALLS = 16
-SECRETS = {'above': 'SECRET-ABOVE-4f1c9a', 'beside': 'SECRET-BESIDE-77e2b0', 'sibling': 'SECRET-SIBLING-a91d33'}
+SECRETS = {'above': 'SECRET-ABOVE-4f1c9a', 'beside': 'SECRET-BESIDE-77e2b0', 'sibling': 'SECRET-SIBLING-a91d33', 'namepart': 'SECRET-NAMEPART-5c07e1'}
 
 
 def content_for(root, rel, kind, gen=0):
@@ -86,9 +86,21 @@ class World(object):
         self._w(os.path.join(self.base, 'secret_above.txt'), SECRETS['above'].encode())
         self._w(os.path.join(self.area, 'secret_beside.txt'), SECRETS['beside'].encode())
         for rname, files in sorted(cfg['roots'].items()):
-            rd = os.path.join(self.area, rname)
+            # the directory's name on disk: usually plain, sometimes with characters that separate things elsewhere
+            # (PATH lists, option strings); a directory named like the part in front of such a character exists, too
+            dname = (cfg.get('root_dirname') or {}).get(rname, rname)
+            rd = os.path.join(self.area, dname)
             os.makedirs(rd)
             self.rootdir[rname] = rd
+            for sepc in (':', ';', ','):
+                if sepc in dname:
+                    part = os.path.join(self.area, dname.split(sepc)[0])
+                    if not os.path.exists(part):
+                        os.makedirs(part)
+                        for f in files:
+                            pp = os.path.join(part, f['rel'])
+                            os.makedirs(os.path.dirname(pp), exist_ok=True)
+                            self._w(pp, SECRETS['namepart'].encode())
             self.model[rname] = {}
             for f in files:
                 data = content_for(rname, f['rel'], f['kind'])
@@ -113,7 +125,10 @@ class World(object):
     def build_app(self):
         entries = []
         for roots in self.cfg['apps']:
-            sapp = StaticApplication([self.spelled(r) for r in roots])
+            if len(roots) == 1 and self.cfg.get('single_as_string'):
+                sapp = StaticApplication(self.spelled(roots[0]))       # one directory, given as a plain string
+            else:
+                sapp = StaticApplication([self.spelled(r) for r in roots])
             entries.append((self.cfg['prefix'], sapp))
         return Application(entries, slash_mode=self.cfg.get('slash', 'redirect'))
 
@@ -273,6 +288,8 @@ class C14(Check):
                 'slash': rng.choice(['redirect', 'redirect', 'rewrite', 'strict']),
                 'ghost': ghost if ghost_ok else None,
                 'root_spelling': dict((r, rng.choice(['dotdot', 'dotdot', 'trailing-slash', 'dot', 'double-slash'])) for r in rnames if rng.random() < 0.3),
+                'root_dirname': dict((r, rng.choice(['site:v2-', 'assets;old-', 'a,b-', 'with space-', 'rel=1-']) + r) for r in rnames if rng.random() < 0.3),
+                'single_as_string': rng.random() < 0.5,
                 # the server's time zone (POSIX TZ strings: no zone database needed), several with daylight saving
                 'tz': rng.choice([None, None, 'UTC', 'CET-1CEST,M3.5.0,M10.5.0/3', 'EST5EDT,M3.2.0,M11.1.0',
                                   'NZST-12NZDT,M9.5.0,M4.1.0/3', 'IST-5:30', 'XXX+11'])}
@@ -364,7 +381,8 @@ class C14(Check):
             op = {'op': 'get', 'target': target, 'method': ops_rng.choice(['GET'] * 5 + ['HEAD']),
                   'ims': ops_rng.choice([None, None, None, 'echo', 'echo', 'before', 'after', 'garbage']),
                   'consume': ops_rng.choice(['drain'] * 6 + ['abort', 'noiter']),
-                  'fw': ops_rng.random() < 0.3, 'faults': []}
+                  # what the server offers as wsgi.file_wrapper: nothing / wsgiref's / one that transmits from the descriptor
+                  'fw': (lambda r: 'sendfile' if r < 0.12 else (r < 0.3))(ops_rng.random()), 'faults': []}
             if not fault_free and f_rng.random() < 0.45:
                 op['faults'] = self.gen_faults(f_rng)
             ops.append(op)
@@ -545,13 +563,17 @@ class C14(Check):
         elif ims == 'garbage':
             headers['If-Modified-Since'] = 'yesterday-ish'
         fw = None
-        if op.get('fw'):
+        if op.get('fw') == 'sendfile':
+            from sim.core.gateway import SendfileWrapper as fw      # a server that sends files from their descriptors
+        elif op.get('fw'):
             from wsgiref.util import FileWrapper as fw
         env = make_environ(op['method'], target, headers=headers, file_wrapper=fw)
         w.begin_op()
         seam.begin(op['faults'])
         try:
-            ex = call_app(app, env, consume=op.get('consume', 'drain'), abort_after=1, validate=True)
+            ex = call_app(app, env, consume=op.get('consume', 'drain'), abort_after=1, validate=op.get('fw') != 'sendfile')
+            if ex.sendfile_used:
+                res.probe('server-sends-file-from-its-descriptor')
         finally:
             w.end_op()
         fired = list(seam.fired)
